@@ -222,9 +222,9 @@ theorem inv_work_retry (c : Cfg) (ar aq : Nat) (s : S) (h : Inv c ar aq s) (hrun
       rw [hcu.1]; exact hrs
     by_cases hur : s.upReset = true
     · rw [finishPhase_eq, processError_spec, if_neg (by simp [m_cl]), if_pos (by rw [m_ur]; exact hur), if_neg (by simp [how])]
-      apply upreset_branch c ar aq m hbm m_run m_cl how h3m h6m m_pd m_sr m_ps (by rw [m_up]; exact hup) hrsm hlcm m_rst
+      apply upreset_branch c ar aq m hbm m_run m_cl how h3m h6m m_pd m_sr (by rw [m_ps]; omega) (fun _ => m_ps) (fun _ => m_ps) hlcm m_rst
         (by rw [m_ph, hp]; intro hh; cases hh)
-      · intro _; right; rw [m_ge]; exact hure hur
+      · intro _ _; right; rw [m_ge]; exact hure hur
       · intro _; rw [m_ge]; exact hure hur
     · simp only [Bool.not_eq_true] at hur
       apply finish_direct c ar aq m hbm m_run m_cl h3m h6m m_pd m_sr m_dir (by rw [m_ur]; exact hur) m_ps hcu.2.1 hlcm m_resp
